@@ -44,6 +44,11 @@ inline S6 mul6(const S6& x, const S6& y) {
     return r;
 }
 inline void mulv6(const S6& x, const V3& a, const V3& b, V3& oa, V3& ob) { oa = rr::mulv(x.A, a) + rr::mulv(x.B, b); ob = rr::mulv(x.C, a) + rr::mulv(x.D, b); }
+// entrywise bound |X| |v| of a 6x6 times spatial vector product (scale for the rounding tolerance)
+inline void absMulv6(const S6& x, const V3& a, const V3& b, LD& sa, LD& sb) {
+    auto ab = [](const M3& m, const V3& v) { LD r = 0; for (int i = 0; i < 3; ++i) { LD s = 0; for (int j = 0; j < 3; ++j) s += fabsl(m.m[i][j]) * fabsl(v[j]); r = std::max(r, s); } return r; };
+    sa = ab(x.A, a) + ab(x.B, b); sb = ab(x.C, a) + ab(x.D, b);
+}
 inline S6 phi6(const V3& l) { S6 s; s.A = rr::ident(); s.B = rr::skew(l); s.C = rr::zero3(); s.D = rr::ident(); return s; }
 inline S6 tr6(const S6& x) { S6 r; r.A = rr::tr(x.A); r.B = rr::tr(x.C); r.C = rr::tr(x.B); r.D = rr::tr(x.D); return r; }
 
